@@ -74,6 +74,16 @@ CHECKS = {
             'Random programs, skeletons with all decision vectors (zero-trip loops) and an enumerated closure matrix.',
             'Reads after the invocation returned and boundaries passed during exceptional propagation are not judged.',
             'DESIGN.md 3/C07'),
+    'C08': ('exploration',
+            'differential against CPython symtable on generated scope soups, plus probe twin: every executed read/binding/delete checked against the owning statement scope',
+            'Static part: generated functions exercising every binding form (nested defs, lambdas, classes, comprehensions, global and '
+            'nonlocal declarations, all parameter kinds, annotations, decorators, defaults, imports, with/except/for/tuple/starred targets, '
+            'attribute and subscript targets) are analysed by the real qual_names + activity passes and, for each function and lambda, '
+            'parameters, bound names, declared globals, nonlocals and closure variables are compared with the symbol table CPython builds '
+            'for the same source. Dynamic part: programs of profile c06 run as probe twins; every executed read, binding and delete of a '
+            'simple name must be in the read / modified / deleted set of the scope of the statement (or header expression) it belongs to.',
+            'Comprehension targets and except-clause names are exempt as the property states; names CPython resolves as global in the function or a descendant may additionally appear free.',
+            'DESIGN.md 3/C08'),
     'C09': ('exploration',
             'interface differential against the original function object and CPython argument binding',
             'Random signatures over all five parameter kinds and closure shapes, as functions, lambdas, methods, loop-made and '
